@@ -75,4 +75,50 @@ rewrite_name = Contract(
     canaries=["result is node"],
 )
 
-CONTRACTS = [get_function_type, set_value, get_internal_body, rewrite_name]
+_UNQ1 = "(D[1:-1] if len(D) > 2 and D[0] == D[-1] and D[0] in ('\"', \"'\") else D)".replace("D", "old_param[1]['default']")
+NONESTR = "```(None)```"
+
+
+def _p2a_case(name, typ, default, assume=()):
+    d = {}
+    if typ != "<absent>":
+        d["typ"] = typ
+    if default != "<absent>":
+        d["default"] = default
+    return Case(name, {"param": ("tuple", ["str", ("dict", d)])}, assume=list(assume))
+
+
+param2ast = Contract(
+    "doctrans.ast_utils:param2ast",
+    properties=["C02", "C06"],
+    note="scalar types, str (quoting) and untyped parameters; needs_quoting by contract; compound types go to _generic_param2ast, which parses "
+         "type strings with ast and is outside the verified subset (bounded rt_class covers it)",
+    cases=[
+        _p2a_case("int,default", ("lit", "int"), "int"),
+        _p2a_case("int,nodefault", ("lit", "int"), "<absent>"),
+        _p2a_case("bool,default", ("lit", "bool"), "bool"),
+        _p2a_case("str,default", ("lit", "str"), "str", assume=["param[1]['default'] != %r" % NONESTR]),
+        _p2a_case("str,nodefault", ("lit", "str"), "<absent>"),
+        _p2a_case("untyped,int", "<absent>", "int"),
+        _p2a_case("untyped,nodefault", "<absent>", "<absent>"),
+    ],
+    use_contract_for=["doctrans.defaults_utils:needs_quoting"],
+    ensures=[
+        Clause("PA0", "typeis(result, 'AnnAssign') and result.target.id == param[0] and result.simple == 1", note="an annotated assignment to the parameter's name"),
+        Clause("PA-ann-int", "result.annotation.id == 'int'", when=["int,default", "int,nodefault", "untyped,int"],
+               note="the annotation is the declared (or, for an untyped parameter, the default's) scalar type"),
+        Clause("PA-ann-bool", "result.annotation.id == 'bool'", when=["bool,default"]),
+        Clause("PA-ann-str", "result.annotation.id == 'str'", when=["str,default", "str,nodefault"]),
+        Clause("PA-ann-object", "result.annotation.id == 'object' and result.value.value is None", when=["untyped,nodefault"]),
+        Clause("PA-val-int", "result.value.value == old_param[1]['default']", when=["int,default", "untyped,int", "bool,default"],
+               note="an explicit scalar default is the assigned value (falsy ones included)"),
+        Clause("PA-val-zero", "result.value.value == 0", when=["int,nodefault"], note="N_class: no default -> the zero value of the type"),
+        Clause("PA-val-str", "result.value.value == %s" % _UNQ1, when=["str,default"],
+               note="a str default is the assigned text, minus at most one pair of matching quotes"),
+        Clause("PA-val-str-zero", "result.value.value == ''", when=["str,nodefault"]),
+        Clause("PA-frame", "('doc' in param[1]) == False", note="no prose is invented"),
+    ],
+    canaries=["result.value.value == 0"],
+)
+
+CONTRACTS = [get_function_type, set_value, get_internal_body, rewrite_name, param2ast]
